@@ -400,6 +400,22 @@ def scope_case(case: dict) -> dict:
             if isinstance(e, (KeyboardInterrupt, SystemExit)):
                 raise
             out["edit"] = {"res": type(e).__name__, "msg": str(e)[:160]}
+        # a HISTORY on one object: edit through the reference, change which layer binds the name, edit again
+        if len(case["keys"]) == 1:
+            seq = []
+            try:
+                with time_limit(15):
+                    src = parse(case["text"])
+                    for path, val in ((case["keys"][0], "99"), ("@a", "55"), (case["keys"][0], "97")):
+                        try:
+                            seq.append({"res": "ok", "text": set_value(src, path, val)})
+                        except (KeyError, ValueError) as e:
+                            seq.append({"res": type(e).__name__, "text": src.rebuild()})
+            except BaseException as e:  # noqa: BLE001
+                if isinstance(e, (KeyboardInterrupt, SystemExit)):
+                    raise
+                seq.append({"res": type(e).__name__, "msg": str(e)[:160]})
+            out["seq"] = seq
         try:
             with time_limit(10):
                 src = parse(case["text"])
@@ -814,6 +830,48 @@ def purity_case(text: str) -> dict:
         return {"res": type(e).__name__, "same_text": True, "same_snap": True}
 
 
+def built_purity_case(case: dict) -> dict:
+    """Purity of a document BUILT through the API (layout decisions are then taken at rebuild time)."""
+    import copy
+    from nix_manipulator.expressions import AttributeSet, Identifier, WithStatement
+    from nix_manipulator.expressions.expression import coerce_expression
+    from nix_manipulator.parser import parse
+    pv, shape = copy.deepcopy(case["pv"]), case["shape"]
+
+    def conv(x, in_list=False):
+        # the constructors take expression objects where plain dicts are not accepted (elements of a list)
+        from nix_manipulator.expressions.list import NixList
+        if isinstance(x, list):
+            items = [conv(y, True) for y in x]
+            return NixList(value=items) if any(not isinstance(y, (int, float, str, bool, type(None))) for y in items) else items
+        if isinstance(x, dict) and in_list:
+            return AttributeSet.from_dict(x)
+        return x
+    try:
+        with time_limit(20):
+            pv = conv(pv)
+            src = parse("{\n  a = 1;\n}\n")
+            if shape == "item_assign":
+                src["k"] = pv
+            elif shape == "with_body":
+                body = AttributeSet.from_dict(pv) if isinstance(pv, dict) else coerce_expression(pv)
+                src["k"] = WithStatement(environment=Identifier(name="p"), body=body)
+            elif shape == "nested":
+                src["k"] = {"inner": pv}
+            else:
+                raise ValueError(shape)
+            before = snapshot(src)
+            a = src.rebuild()
+            mid = snapshot(src)
+            b = src.rebuild()
+            after = snapshot(src)
+        return {"res": "ok", "same_text": a == b, "same_snap": before == mid == after, "text": a}
+    except BaseException as e:  # noqa: BLE001
+        if isinstance(e, (KeyboardInterrupt, SystemExit)):
+            raise
+        return {"res": type(e).__name__, "same_text": True, "same_snap": True, "msg": str(e)[:120]}
+
+
 def order_case(case: dict) -> dict:
     """The same texts processed in two different orders in ONE process (plus some resolves / edits in between)."""
     import hashlib
@@ -837,6 +895,9 @@ def json_dumps(x):
 
 # ---------------------------------------------------------------------------
 # C10 (registry half): create / resolve / discard histories with lifetime monitoring
+
+PLAIN_DOCS = {9}        # Docs.tla Plain
+
 
 def registry_case(case: dict) -> dict:
     import gc
@@ -879,8 +940,12 @@ def registry_case(case: dict) -> dict:
     hooks.install(sink)
     try:
         for op, k in case["ops"]:
-            if op == "create":
+            if op == "create" and k in PLAIN_DOCS:
+                docs[k] = parse("{ x = 1; q = 2; }")
+            elif op == "create":
                 docs[k] = parse(f"let v = {100 + k}; in {{ x = v; y = w; w = v; n = {{ z = v; }}; }}")
+            elif op == "resolve" and k in PLAIN_DOCS:
+                pass
             elif op == "resolve" and k in docs:
                 for path in (("x",), ("y",), ("n", "z")):
                     try:
@@ -896,6 +961,21 @@ def registry_case(case: dict) -> dict:
             elif op == "discard" and k in docs:
                 del docs[k]
                 gc.collect()
+            elif op == "transplant":
+                s_, d_, key = k
+                if s_ in docs and d_ in docs:
+                    try:
+                        obj = docs[s_]["x"]          # the identifier object, with the scopes of document s_ attached
+                        _ = obj.value
+                        del docs[s_]
+                        gc.collect()
+                        docs[d_][key] = obj          # the reference now sits in document d_
+                        val = docs[d_][key].value.rebuild().strip()
+                    except Exception as e:  # noqa: BLE001
+                        val = "raised:" + type(e).__name__
+                    if (d_ in PLAIN_DOCS or val != str(100 + d_)) and val != "raised:ResolutionError":
+                        results_ok = False
+                        wrong = {"transplant": [s_, d_, key], "got": val, "expected": str(100 + d_)}
     finally:
         hooks.install(None)
     return {"events": events[:20000], "results_ok": results_ok, "wrong": wrong, "n_events": len(events)}
